@@ -430,6 +430,10 @@ func consistentReplica(r rpReplica) bool {
 }
 
 func execC04(c *hlib.Ctx, tok []string) string {
+	return guarded(c, func() string { return execC04Body(c, tok) })
+}
+
+func execC04Body(c *hlib.Ctx, tok []string) string {
 	if len(tok) != 7 || tok[0] != "rp.select" {
 		return "bad-op"
 	}
@@ -602,7 +606,7 @@ func oracleDedupOff(c *hlib.Ctx, ss []rpSeries, out []rpOut, qmint, qmaxt int64)
 
 func genC04(c *hlib.Ctx) {
 	// filled in below (see genC04Case); kept separate so that the F04 witness can be replayed first
-	n := c.N(1500, 100000)
+	n := budget(c, 1500, 30000)
 	for i := 0; i < n; i++ {
 		genC04Case(c)
 	}
